@@ -1269,7 +1269,7 @@ def fam_overlap(P, n, tier):
         sc = Scn('ovl%d' % i, cap=P.choice(CAPS), buf_size=P.choice([64, 80]), ubuf_size=P.choice([-1, 40]), fill=0)
         xv = [Var(UINT, 1, RW, init=bytes([11 + 11 * j]), hread=P.chance(0.5)) for j in range(P.choice([2, 3, 4]))]
         x = Cmd('+X', r=True, w=True, vars=xv)
-        yv = [Var(UINT, 1, RW, init=bytes([70 + j])) for j in range(P.choice([1, 2, 3]))]
+        yv = [Var(UINT, 1, RW, init=bytes([70 + j]), hread=P.chance(0.6)) for j in range(P.choice([1, 2, 3]))]
         y = Cmd('+Y', vars=yv)
         sc.add_group([x, y])
         sc.script(1, x.ci, 0, [Res(RC['OK'])] * 8)
@@ -1277,6 +1277,9 @@ def fam_overlap(P, n, tier):
         for vi, v in enumerate(xv):
             if v.hread:
                 sc.script(4, x.ci, vi, [Res(0)] * 8)
+        for vi, v in enumerate(yv):
+            if v.hread:
+                sc.script(4, y.ci, vi, [Res(0)] * 8)
         mode = i % 2
         if mode == 0:
             sc.feed('AT+X?\n')
@@ -1289,6 +1292,7 @@ def fam_overlap(P, n, tier):
         sc.drain(3000)
         sc.feed('AT+X?\n')
         sc.drain(3000)
+        sc.meta['overlap'] = (mode, ev.ci)
         out.append(sc)
     return out
 
